@@ -775,6 +775,16 @@ def _mod_functools(interp, m):
         return a[0]
 
     m.ns["update_wrapper"] = BuiltinV("functools.update_wrapper", update_wrapper)
+
+    def identity_deco(i, a, k, n):
+        # lru_cache / cache / wraps: transparent for the analysis (a cache of a pure function is the function)
+        if len(a) == 1 and not k and isinstance(a[0], (FuncV, BoundMethod)):
+            return a[0]
+        return BuiltinV("functools.<decorator>", lambda i2, a2, k2, n2: a2[0])
+
+    m.ns["lru_cache"] = BuiltinV("functools.lru_cache", identity_deco)
+    m.ns["cache"] = BuiltinV("functools.cache", identity_deco)
+    m.ns["wraps"] = BuiltinV("functools.wraps", lambda i, a, k, n: BuiltinV("functools.<wraps>", lambda i2, a2, k2, n2: a2[0]))
     _ext_default_getter(m, "functools")
 
 
@@ -886,6 +896,10 @@ def value_attr(interp, obj, name, node):
         if isinstance(obj, BuiltinV):
             if name == "__name__":
                 return obj.name.split(".")[-1]
+            if name == "__bases__" and obj.name in TYPE_NAMES:
+                return () if obj.name == "object" else (interp.builtins["object"],)
+            if name == "__mro__" and obj.name in TYPE_NAMES:
+                return (obj,) if obj.name == "object" else (obj, interp.builtins["object"])
             if name == "__dict__" and obj.name in TYPE_NAMES:
                 from .interp import OBJECT_ATTRS
 
